@@ -76,7 +76,7 @@ func c17bRunInBubble(c c17bCase) (out Outcome) {
 	marker := func(i int) string { return fmt.Sprintf("mk%d", i+1) }
 	forever := 200
 	switch c.Scenario {
-	case "retry-class":
+	case "retry-class", "nsre-class":
 		if c.RegionLevel {
 			for _, r := range cl.Regions {
 				for k := 0; k < forever; k++ {
@@ -91,7 +91,11 @@ func c17bRunInBubble(c c17bCase) (out Outcome) {
 				k = i
 			}
 			for ; k > 0; k-- {
-				cl.Script[marker(i)] = append(cl.Script[marker(i)], sim.Outcome{Kind: "exc", Class: c.Class, Stack: "persistent"})
+				stack := "persistent"
+				if c.Class == sim.IOExc {
+					stack = "Cannot append; log is closed"
+				}
+				cl.Script[marker(i)] = append(cl.Script[marker(i)], sim.Outcome{Kind: "exc", Class: c.Class, Stack: stack})
 			}
 		}
 	case "conn-drop":
@@ -168,9 +172,14 @@ func c17bRunInBubble(c c17bCase) (out Outcome) {
 	synctest.Wait()
 	select {
 	case <-done:
+		execs, dials, _ := cl.Snapshot()
 		client.Close()
 		drainClient()
 		cl.Stop()
+		// (a request that got through because it used up the scripted failures in no time: say so)
+		if o := c17bSchedule(c, cl, execs, dials, nil); o.Sig != "" {
+			return o
+		}
 		return viol("returned-without-cancel@"+c.Scenario, "the request returned (err=%v, results=%v) after %v although the failure persists and its context is live", err, results, returnedAt.Sub(time.Now().Add(-time.Duration(c.RunSec)*time.Second)))
 	default:
 	}
@@ -230,6 +239,17 @@ func c17bSchedule(c c17bCase, cl *sim.Cluster, execs []sim.Exec, dials []sim.Dia
 	switch c.Scenario {
 	case "retry-class":
 		what = "attempts of the request at the server"
+		for _, e := range execs {
+			if e.Marker == marker(0) {
+				times = append(times, e.T)
+			}
+		}
+	case "nsre-class":
+		// the region refuses the request as "not serving" although it answers the probe of every
+		// re-establishment (a closed write-ahead log, say): like connection-level failures, two
+		// immediate retries, then the schedule
+		what = "attempts of the request at the server (answered " + c.Class + ", the region's probe succeeds)"
+		free = 2
 		for _, e := range execs {
 			if e.Marker == marker(0) {
 				times = append(times, e.T)
@@ -353,7 +373,8 @@ func TestC17_RetrySchedule(t *testing.T) {
 	theT = t
 	rec := evid.New("C17", "TestC17_RetrySchedule",
 		"rapid over enumerated persistent-failure scenarios, exact virtual time, the real back-off function (no stub): "+
-			"the region answers a retryable class forever (single call and SendBatch of 1..3 calls), the server accepts "+
+			"the region answers a retryable class forever (single call and SendBatch of 1..3 calls), the region refuses the request as not-serving for ever while it "+
+			"answers the probe of every re-establishment (NotServingRegion, RegionMoved, 'log is closed'), the server accepts "+
 			"and then drops the connection on every request, the region's server refuses every dial, the region probe "+
 			"answers NotServing / RegionOpening forever, the hbase:meta server is down, hangs, or answers every scan with an unclassified exception, "+
 			"ZooKeeper errors; the failing operation is a request or (meta scenarios) the whole-table lookup of CacheRegions; key, queue "+
@@ -364,7 +385,7 @@ func TestC17_RetrySchedule(t *testing.T) {
 			"within 100 virtual ms of its cancellation. Non-trivial = >= 4 consecutive attempts observed; distinct by case hash")
 	Drive(t, rec, true, func(t *rapid.T) c17bCase {
 		c := c17bCase{
-			Scenario:        rapid.SampledFrom([]string{"retry-class", "retry-class", "conn-drop", "dial-fail", "probe-drop", "probe-fail", "meta-down", "meta-notserving", "zk-error", "zk-hang", "meta-hang", "meta-error", "meta-error"}).Draw(t, "scenario"),
+			Scenario:        rapid.SampledFrom([]string{"retry-class", "retry-class", "nsre-class", "nsre-class", "conn-drop", "dial-fail", "probe-drop", "probe-fail", "meta-down", "meta-notserving", "zk-error", "zk-hang", "meta-hang", "meta-error", "meta-error"}).Draw(t, "scenario"),
 			LookupTimeoutMS: rapid.SampledFrom([]int{20, 200, 1000, 30000}).Draw(t, "lookuptimeout"),
 			Batch:           rapid.SampledFrom([]int{0, 0, 1, 2, 3, 8}).Draw(t, "batch"),
 			Key:             evid.B(rapid.SampledFrom([]string{"a", "m", "z", ""}).Draw(t, "key")),
@@ -380,6 +401,9 @@ func TestC17_RetrySchedule(t *testing.T) {
 			c.Class = rapid.SampledFrom([]string{sim.CallQueueBig, sim.RegionOpening, sim.Throttling, sim.RetryImm, sim.TooBusy, sim.PleaseHold}).Draw(t, "class")
 		case "probe-fail":
 			c.Class = rapid.SampledFrom([]string{sim.NSRE, sim.RegionOpening, sim.RegionMoved, sim.TooBusy}).Draw(t, "class")
+		case "nsre-class":
+			c.Class = rapid.SampledFrom([]string{sim.NSRE, sim.RegionMoved, sim.IOExc}).Draw(t, "class")
+			c.RegionLevel = c.Queue > 1 && c.Class != sim.IOExc && rapid.IntRange(0, 2).Draw(t, "regionlevel") == 0
 		case "meta-error":
 			c.Class = rapid.SampledFrom([]string{"java.lang.RuntimeException", "org.apache.hadoop.hbase.DoNotRetryIOException", "java.io.IOException"}).Draw(t, "class")
 			c.CacheRegions = rapid.Bool().Draw(t, "cacheregions")
